@@ -3,46 +3,54 @@
 -/
 import InvProxy.Model.WsCodec
 import InvProxy.Model.WsRelay
+import InvProxy.Proofs.B64
+import InvProxy.Proofs.WsRelay
+import InvProxy.Proofs.WsInject
 namespace InvProxy.C11
 open InvProxy InvProxy.WsCodec InvProxy.WsRelay InvProxy.Gen
 
 /-- binary payloads survive the base64 transport encoding of protocol version 1, for all byte strings -/
-theorem b64_roundtrip (bs : Bytes) : b64dec (b64enc bs) = some bs := by
-  sorry
+theorem b64_roundtrip (bs : Bytes) : b64dec (b64enc bs) = some bs :=
+  b64_roundtrip' bs
 
 /-- what the server-side shim serialises is decoded by the client-message decoder to the
     same message: type and payload unchanged, text and binary -/
 theorem client_codec (m : Msg) : decodeClient (serialize m) = .msg m := by
-  sorry
+  cases m with
+  | text d => rfl
+  | binary d => simp only [serialize, decodeClient, b64_roundtrip']
 
 /-- Exactly once, in order: at every point of every interleaving of producer and consumer
     steps — any batching, any number of messages beyond the channel capacity — what has been
     delivered, what is buffered and what is still to be sent concatenate to the original
     sequence. -/
 theorem relay_invariant {μ : Type} (cap : Nat) (msgs : List μ) (acts : List Act) (s : St μ)
-    (h : run (start cap msgs) acts = some s) : s.done ++ s.chan ++ s.todo = msgs := by
-  sorry
+    (h : run (start cap msgs) acts = some s) : s.done ++ s.chan ++ s.todo = msgs :=
+  run_inv acts (start cap msgs) s (by simp [start]) h
 
 /-- hence the peer always holds a prefix of what was sent … -/
 theorem relay_prefix {μ : Type} (cap : Nat) (msgs : List μ) (acts : List Act) (s : St μ)
-    (h : run (start cap msgs) acts = some s) : s.done <+: msgs := by
-  sorry
+    (h : run (start cap msgs) acts = some s) : s.done <+: msgs :=
+  ⟨s.chan ++ s.todo, by rw [← List.append_assoc]; exact run_inv acts (start cap msgs) s (by simp [start]) h⟩
 
 /-- … and everything once the queues are empty. -/
 theorem relay_complete {μ : Type} (cap : Nat) (msgs : List μ) (acts : List Act) (s : St μ)
     (h : run (start cap msgs) acts = some s) (h1 : s.chan = []) (h2 : s.todo = []) : s.done = msgs := by
-  sorry
+  have := run_inv (msgs := msgs) acts (start cap msgs) s (by simp [start]) h
+  simpa [h1, h2] using this
 
 /-- the buffer never exceeds the channel capacity (10 in the code) -/
 theorem relay_bounded {μ : Type} (cap : Nat) (msgs : List μ) (acts : List Act) (s : St μ)
     (h : run (start cap msgs) acts = some s) : s.chan.length ≤ max cap 1 := by
-  sorry
+  have hb := run_bounded acts (start cap msgs) s (by simp [start]) h
+  rw [run_cap acts (start cap msgs) s h] at hb
+  exact hb
 
 /-- no deadlock and bounded progress: while something is undelivered some step is enabled,
     and every step strictly decreases `2·|todo| + |chan|` -/
 theorem relay_progress {μ : Type} (s : St μ) (hne : s.todo ≠ [] ∨ s.chan ≠ []) :
-    ∃ a s', step s a = some s' ∧ 2 * s'.todo.length + s'.chan.length < 2 * s.todo.length + s.chan.length := by
-  sorry
+    ∃ a s', step s a = some s' ∧ 2 * s'.todo.length + s'.chan.length < 2 * s.todo.length + s.chan.length :=
+  progress s hne
 
 /-- T3: both relay channels have capacity 10, the reader goroutine is the only sender on
     `serverMessages` and closes it exactly once on exit. -/
@@ -59,8 +67,8 @@ theorem inject_path : websockets_injectedHeadersPath = [resourceKey, headersKey]
 
 /-- only JSON objects holding an object at `resource.headers` are changed -/
 theorem inject_none_unless_target (hs : List (Bytes × Bytes)) (v : J) :
-    (inject hs v).isSome ↔ ∃ top res hdrs, v = .obj top ∧ lookup resourceKey top = some (.obj res) ∧ lookup headersKey res = some (.obj hdrs) := by
-  sorry
+    (inject hs v).isSome ↔ ∃ top res hdrs, v = .obj top ∧ lookup resourceKey top = some (.obj res) ∧ lookup headersKey res = some (.obj hdrs) :=
+  inject_isSome_iff hs v
 
 /-- header fields already present are kept, absent ones are added with the request's
     value, and nothing else inside `resource.headers` changes -/
@@ -68,8 +76,8 @@ theorem addMissing_lookup (hs : List (Bytes × Bytes)) (fields : List (Bytes × 
     lookup k (addMissing hs fields) =
       match lookup k fields with
       | some v => some v
-      | none => (hs.find? (fun kv => kv.1 = k)).map (fun kv => J.str kv.2) := by
-  sorry
+      | none => (hs.find? (fun kv => kv.1 = k)).map (fun kv => J.str kv.2) :=
+  addMissing_lookup' hs fields k
 
 /-- every other member, at every level, is left as it was -/
 theorem inject_frame (hs : List (Bytes × Bytes)) (top res hdrs : List (Bytes × J))
@@ -79,8 +87,8 @@ theorem inject_frame (hs : List (Bytes × Bytes)) (top res hdrs : List (Bytes ×
       lookup headersKey res' = some (.obj (addMissing hs hdrs)) ∧
       (∀ k, k ≠ resourceKey → lookup k top' = lookup k top) ∧
       (∀ k, k ≠ headersKey → lookup k res' = lookup k res) ∧
-      top'.map (·.1) = top.map (·.1) ∧ res'.map (·.1) = res.map (·.1) := by
-  sorry
+      top'.map (·.1) = top.map (·.1) ∧ res'.map (·.1) = res.map (·.1) :=
+  inject_frame' hs top res hdrs h1 h2
 
 -- non-vacuity
 example : b64enc [77, 97, 110] = [84, 87, 70, 117] := by decide
